@@ -247,6 +247,35 @@ def r55(e: Engine, rep: Report):
                           'inside the content for the end of data)'
                           % (n.value, term), loc=m.loc(n),
                           reason='equals the reader\'s terminator (+ ".")')
+        # a bare line-break literal used to LOOK for line ends (searched
+        # for / tested at an end of the data) is the reader's terminator
+        if mname not in ('send', '_send_piece'):
+            for n in ast.walk(m.node):
+                if not (isinstance(n, ast.Call) and
+                        isinstance(n.func, ast.Attribute) and
+                        n.func.attr in ('endswith', 'startswith', 'find',
+                                        'rfind', 'index', 'rindex', 'count',
+                                        'partition', 'rpartition')):
+                    continue
+                for a in n.args[:1]:
+                    vals = [a] if isinstance(a, ast.Constant) else (
+                        list(a.elts) if isinstance(a, ast.Tuple) else [])
+                    for c0 in vals:
+                        if isinstance(c0, ast.Constant) and \
+                                isinstance(c0.value, bytes) and c0.value and \
+                                set(c0.value) <= set(b'\r\n'):
+                            nlit += 1
+                            rep.evaluations += 1
+                            rep.check(
+                                c0.value == term, 'R5.5', m.qname,
+                                'line-end test %s(%r)' % (n.func.attr,
+                                                          c0.value),
+                                'the sender takes %r for the end of a line '
+                                'while the reader ends lines at %r: a dot '
+                                'the reader will see at the start of a line '
+                                'is not stuffed (or one inside a line is)'
+                                % (c0.value, term), loc=m.loc(c0),
+                                reason='equals the reader\'s terminator')
         # offsets added to a find() result
         finds = {}
         for n in walk_own(m.node):
